@@ -26,6 +26,7 @@ type PropSpec struct {
 	Kinds       []string `json:"kinds"`       // obligation kinds / "kind/label-prefix"; empty = all
 	Exclude     []string `json:"exclude"`     // function keys excluded from wildcard expansion
 	ExcludeK    []string `json:"exclude_kinds"` // obligations (kind or kind/label-prefix) belonging to other properties
+	FrameAll    bool     `json:"frame_all"`     // functions without a contract are checked against `assigns \\nothing`
 	Assumptions []string `json:"assumptions"` // stated, unchecked assumptions
 	Bounded     []struct {
 		Name  string `json:"name"`
@@ -148,6 +149,7 @@ func runCheck(prop, tier string, seed int) int {
 	if err := w.loadSpecs(dir); err != nil {
 		return fail("contracts: %v", err)
 	}
+	w.db.FrameAll = ps.FrameAll
 	// expand the function list
 	excl := map[string]bool{}
 	for _, x := range ps.Exclude {
@@ -226,6 +228,7 @@ func runCheck(prop, tier string, seed int) int {
 	callees := map[string]bool{}
 	withSpec := 0
 	covers := 0
+	frameSites := 0
 	for _, r := range results {
 		for _, p := range r.ex.Probs {
 			problems = append(problems, fmt.Sprintf("%s: %s", r.name, p.Msg))
@@ -233,6 +236,7 @@ func runCheck(prop, tier string, seed int) int {
 		if r.ex.Spec != nil {
 			withSpec++
 		}
+		frameSites += r.ex.FrameSites
 		for k := range r.ex.Externs {
 			externs[k] = true
 		}
@@ -345,6 +349,7 @@ func runCheck(prop, tier string, seed int) int {
 		"by_solver":                bySolver,
 		"solver_time_s":            round3(solverTime),
 		"vacuity_covers_checked":   covers,
+		"write_sites_examined":     frameSites,
 		"undecided":                len(undecided),
 		"failed":                   len(violations),
 		"known_findings_reported":  len(dedupe(knownHit)),
